@@ -20,7 +20,7 @@ SPEC = {
     "C09": [("MD.Props.C09", None)],
     "C10": [("MD.Props.C10", None), ("MD.Props.C10b", None)],
     "C11": [("MD.Props.C11", None), ("MD.Props.C11b", None)],
-    "C12": [("MD.Props.C12", None), ("MD.Props.C12b", None), ("MD.Props.C01b", None), ("MD.Props.C03b", None)],
+    "C12": [("MD.Props.C12", None), ("MD.Props.C12b", None), ("MD.Props.C01b", None), ("MD.Props.C03b", None), ("MD.Props.C12c", None)],
     "C13": [("MD.Props.C13", None)],
     "C14": [("MD.Props.C14", None), ("MD.Props.C04_HES", "re:C14_"), ("MD.Props.C04_HQS", "re:C14_")],
     "C15": [("MD.Props.C15", None), ("MD.Proofs.ElemIntegral", None)],
